@@ -413,7 +413,9 @@ class JSONRPCMessage(McpPydanticBase):  # type: ignore[no-redef]
 
     def is_response(self) -> bool:
         """Check if this is a response message."""
-        return self.method is None and self.id is not None
+        # An error response may carry a null id (JSON-RPC 2.0: the id of the
+        # offending request could not be determined); it is still a response.
+        return self.method is None and (self.id is not None or self.error is not None)
 
     def is_error_response(self) -> bool:
         """Check if this is an error response."""
